@@ -44,7 +44,7 @@ func subset(r *rand.Rand, keys []string) []string {
 
 func runC02(c *core.Ctx) {
 	g := gen.New(c.R)
-	g.Allowed = func(k string) bool { return k != "isleaf" }
+	g.Allowed = func(k string) bool { return k != "isleaf" && k != "multiis" }
 	w := newIsWorld(c, g, 5, true)
 	if w == nil {
 		return
